@@ -110,7 +110,7 @@ def c08(tier, seed):
     c.required_points = ["WAITLIST_ULT_WAIT", "BROADCAST_ULT", "BROADCAST_EXT", "FUTEX_WAIT_AFTER_UNLOCK"]
     c.required_counters = ["rounds", "reinits", "xstream_barrier_rounds", "reentered_while_others_leaving",
                            "tasklet_rejected_on_the_shared_barrier", "xstream_barrier_external_waiters",
-                           "xstream_barrier_phases_with_one_stream"]
+                           "xstream_barrier_phases_with_one_stream", "reinit_issued_by_a_waiter_right_after_its_last_wait"]
     return c
 
 
@@ -153,7 +153,8 @@ def c05(tier, seed):
     c.nontrivial = lambda r: has_cov(r, "WAITLIST_ULT_WAIT") or (r.result or {}).get("scenario") == "cond_script"
     c.required_points = ["WAITLIST_ULT_WAIT", "SIGNAL_ULT", "BROADCAST_EXT", "TIMEDOUT_REMOVE_HEAD",
                          "TIMEDOUT_REMOVE_MIDDLE", "TIMEDOUT_REMOVE_TAIL", "SIGNAL_EXT_AFTER_READY"]
-    c.required_counters = ["handoff_trials", "handoff_timed_waits", "deadline_far_future_in_soup", "waits", "timedwaits", "timeouts", "signals", "broadcasts", "waits_by_external",
+    c.required_counters = ["handoff_trials", "handoff_timed_waits", "deadline_far_future_in_soup",
+                           "nested_relocks_after_wait_with_recursive_mutex", "waits", "timedwaits", "timeouts", "signals", "broadcasts", "waits_by_external",
                            "wrong_mutex_rejected", "signal_with_no_waiter", "shapes"]
     return c
 
@@ -510,7 +511,13 @@ def c01(tier, seed):
     for i, s in enumerate(seeds(seed, 2 if q else 10, salt=4)):
         c.add(Run("h_units", "mon", ["--seed", s, "--mode", "joinmix", "--scenarios", 60 if q else 300, "--delay",
                                      profiles[i % 4], "--watchdog", 90], weight=4, tag="joinmix%d" % i))
+    # revived units run exactly once more, also after an earlier cancellation request (lifecycle epochs of C12)
+    for i, s in enumerate(seeds(seed, 1 if q else 6, salt=5)):
+        c.add(Run("h_units", "mon", ["--seed", s, "--mode", "life", "--scenarios", 6 if q else 40, "--max-cycles",
+                                     150 if q else 600, "--delay", profiles[i % 4], "--watchdog", 90], weight=4,
+                  tag="life%d" % i))
     c.nontrivial = lambda r: ((r.result or {}).get("counters", {}).get("units", 0) >= 50 or
+                              (r.result or {}).get("counters", {}).get("epochs", 0) >= 50 or
                               (r.result or {}).get("counters", {}).get("joinmix_units", 0) >= 50 or
                               (r.result or {}).get("counters", {}).get("stacked_schedulers_added", 0) >= 20)
     c.required_points = ["CREATE_AFTER_PUSH", "POP_BECAME_EMPTY", "POP_LOCK_CONTENDED", "EXIT_JUMP_TO_JOINER", "EXIT_PUSH_JOINER",
@@ -557,7 +564,7 @@ def c03(tier, seed):
     c.required_points = ["GET_JOINER_NONE", "GET_JOINER_READY", "GET_JOINER_WAITED", "JOIN_YIELD_LOOP", "JOIN_SUSPEND",
                          "JOIN_FUTEX", "EXIT_FUTEX_JOINER", "EXIT_JUMP_TO_JOINER", "EXIT_PUSH_JOINER",
                          "JOIN_ALREADY_TERMINATED", "SCHEDULE_CANCELLED"]
-    c.required_counters = ["join_trials", "join_many_trials", "caller_ult-same-stream", "caller_ult-other-stream",
+    c.required_counters = ["join_trials", "join_many_trials", "join_many_null_entries", "caller_ult-same-stream", "caller_ult-other-stream",
                            "caller_tasklet", "caller_primary", "caller_external", "target_exit_to",
                            "target_cancel-before-start", "target_cancel-while-running", "target_block-first",
                            "join_issued_before-start", "join_issued_while-running", "join_issued_after-termination"]
@@ -619,11 +626,12 @@ def c06(tier, seed):
                    "--watchdog", 90 if q else 600], weight=4, tag="blockmig%d" % i))
     c.nontrivial = lambda r: True
     c.required_counters = ["joinmix_multi_pool_joins", "joinmix_joins_overlapping_sched_replacement",
-                           "joinmix_two_replacements_back_to_back",
+                           "joinmix_two_replacements_back_to_back", "joinmix_replacement_by_unit_in_non_first_pool",
                            "joinmix_revive_idle_work_join_rounds", "blockmig_exact_counter_checks", "migration_requests_pending_when_blocking",
                            "migration_requests_issued_while_blocked", "units_resumed_in_another_pool",
                            "blockmig_step_eventual", "blockmig_step_cond", "blockmig_step_self_suspend",
                            "blockmig_step_mutex", "blockmig_step_join",
+                           "block_victim_pool_mpsc", "block_victim_pool_spsc",
                            "block_scenarios", "blocked_on_eventual", "blocked_on_cond", "self_suspended", "blocked_on_mutex",
                            "xstream_join_issued_with_blocked_units", "finalize_issued_with_blocked_units",
                            "blocked_counter_samples", "blocked_counter_exact_checks", "stacked_scheduler_variants",
@@ -673,7 +681,7 @@ def c11(tier, seed):
     c.required_counters = ["suspend_resume_round_trips", "resumed_by_external_thread", "resumed_by_ult_on_other_stream",
                            "op_yield_to", "op_thread_yield_to", "op_create_to", "op_revive_to", "op_suspend_to",
                            "op_resume_yield_to", "op_resume_suspend_to", "op_exit_to", "op_resume_exit_to",
-                           "expectations_checked", "targets_never_started", "targets_already_started"]
+                           "op_cancel_self_then_resume_yield_to", "expectations_checked", "targets_never_started", "targets_already_started"]
     c.required_points = ["SUSPEND_AFTER_BLOCKED", "RESUME_AFTER_PUSH"]
     return c
 
@@ -752,7 +760,8 @@ def c13(tier, seed):
                            "concurrent_requests_rejected_same_pool", "self_issued_requests", "callbacks",
                            "rejected_current_pool", "rejected_non_migratable", "rejected_main_scheduler_ult",
                            "thread_migrate_moved_to_other_stream", "thread_migrate_no_target_rejected", "migrate_to_xstream",
-                           "migrate_to_sched", "first_request_races", "rejected_own_stream_with_multi_pool_scheduler"]
+                           "migrate_to_sched", "first_request_races", "rejected_own_stream_with_multi_pool_scheduler",
+                           "callback_from_attributes_of_unit_made_migratable_later"]
     c.required_points = ["MIGRATE_BEFORE_CLEAR", "MIGRATE_AFTER_TARGET_SET", "SCHEDULE_MIGRATED"]
     return c
 
@@ -840,7 +849,7 @@ def c02(tier, seed):
     c.nontrivial = lambda r: (r.result or {}).get("counters", {}).get("switches_checked", 0) >= 100
     c.required_counters = ["switches_checked", "resumed_on_another_stream", "switch_target_never_started",
                            "switch_target_already_started", "user_stack_top_not_16_aligned", "stack_mempool", "stack_malloc",
-                           "stack_user"] + ["op_" + n for n in (
+                           "stack_user", "create_many_with_user_stack_refused"] + ["op_" + n for n in (
                                "yield", "yield_to", "thread_yield_to", "create_to", "revive_to", "self_suspend", "suspend_to",
                                "resume", "resume_yield_to", "resume_suspend_to", "exit_to", "resume_exit_to", "join_child",
                                "mutex", "set_main_sched", "create")]
